@@ -549,17 +549,33 @@ func runEntriesHistory(c *kit.Case, pool []entry, baseRep int, newRing func() *h
 				}
 				ref := snapshotIndep(h2, ps)
 				diff, first := 0, -1
+				// the node that owns most of the differing probes on either ring names the class
+				share := map[string]int{}
+				var most any
+				mostID := ""
 				for i := range ref.ids {
 					if ref.ids[i] != cur.ids[i] {
 						diff++
 						if first < 0 {
 							first = i
 						}
+						for _, o := range []struct {
+							id string
+							v  any
+						}{{cur.ids[i], cur.vals[i]}, {ref.ids[i], ref.vals[i]}} {
+							if o.id == noneID {
+								continue
+							}
+							share[o.id]++
+							if mostID == "" || share[o.id] > share[mostID] || (share[o.id] == share[mostID] && o.id < mostID) {
+								mostID, most = o.id, o.v
+							}
+						}
 					}
 				}
 				c.Obs(obsPrefix+"rebuild_comparisons", 1)
 				if diff > 0 {
-					c.Viol("C15/history-dependence/"+classOf(cur.vals[first], ref.vals[first]),
+					c.Viol("C15/history-dependence/"+classOf(most),
 						fmt.Sprintf("%d of %d probes map differently on the ring reached by the history and on a ring built from the same final node set (order %d: %q); e.g. %s -> %s vs %s",
 							diff, len(ps), oi, ord, describe(ps[first]), describe(cur.vals[first]), describe(ref.vals[first])), w())
 					break
@@ -683,7 +699,10 @@ func runWeakHash(c *kit.Case, nProbes int) {
 	pool := entriesOf(vals)
 	baseRep := kit.Choose(r, []int{100, 100, 130})
 	newRing := func() *hash.ConsistentHash { return hash.NewCustomConsistentHash(baseRep, nh.fn) }
-	class := "custom-hash-" + nh.name
+	class := "weak-custom-hash"
+	if strings.HasPrefix(nh.name, "md5") {
+		class = "md5-custom-hash"
+	}
 	hist, nontrivial := runEntriesHistory(c, pool, baseRep, newRing, clauseSet{disruption: false}, probesExt(nProbes),
 		func(...any) string { return class }, map[string]any{"hash_func": nh.name}, "custom_hash_")
 	sig := []any{"weak", nh.name, baseRep}
